@@ -21,7 +21,7 @@ From SFC.Gen Require Import Fx Zone.
 From SFC.GenMarket Require Import Market MarketProofs.
 From SFC.GenAsset Require Import Common CommonProofs Money Deposit.
 From SFC.GenTax Require Import Tax TaxProofs.
-From SFC.GenMain Require Import Program Classes Main Ledger MainProofs Names Conflict Balance Clear Witness.
+From SFC.GenMain2 Require Import Program Classes Main Ledger MainProofs Names Conflict Balance Clear Witness.
 Import ListNotations.
 Local Open Scope string_scope.
 
